@@ -422,6 +422,10 @@ def run09(ck):
                      "rawoff": 0, "plen": 0, "dlen": cls.payload_length, "dec": "na", "decok": 0}
                 out, p = encode(cls, value)
                 r["out"] = out
+                if not half:
+                    out_s, p_s = encode(cls, str(value))
+                    recs.append({"t": "str", "cls": cls.__name__, "same": 1 if (out_s, p_s) == (out, p) else 0})
+                    ex.append(f"{cls.__name__}.to_knx({str(value)!r}) -> {out_s} {p_s} but to_knx({value}) -> {out} {p}"[:300])
                 if out == "ok" and isinstance(p, DPTArray):
                     b = bytes(p.value)
                     r["plen"] = len(b)
@@ -459,12 +463,12 @@ def run09(ck):
         inr = None
         if "lo" in r:
             inr = r["lo"] <= r["v"] <= r["hi"]
-        sig = (r["cls"], r["out"], r.get("dec"), r.get("decok"), inr, r.get("anchor"), r.get("zone"))
+        sig = (r["cls"], r.get("out", r["t"]), r.get("dec"), r.get("decok"), inr, r.get("anchor"), r.get("zone"))
         seen.setdefault(sig, []).append(idx)
     for sig, idxs in seen.items():
         idx = idxs[0]
         r = recs[idx]
-        key = {"cls": r["cls"], "out": r["out"], "dec": r.get("dec"), "in_declared_range": sig[4], "anchor": sig[5], "zone": sig[6], "decok": r.get("decok")}
+        key = {"cls": r["cls"], "out": r.get("out", r["t"]), "dec": r.get("dec"), "in_declared_range": sig[4], "anchor": sig[5], "zone": sig[6], "decok": r.get("decok")}
         ck.violation(key, f"numeric datapoint: {ex[idx]} -> {json.dumps({k: v for k, v in r.items() if k not in ('t', 'cls')})} ({len(idxs)} such cases, e.g. also {ex[idxs[-1]]})",
                      {"record": r, "example": ex[idx], "more": [ex[i] for i in idxs[1:6]]})
     ok = [r for r in recs if r["t"] == "num" and r["out"] == "ok" and r.get("decok") == 1]
@@ -475,8 +479,8 @@ def run09(ck):
            [dict(r, out="conv") for r in inside[:5]] + [dict(r, dec="refused") for r in inside[:5]] + [dict(r, plen=r["plen"] + 1) for r in inside[:5]] + \
            [dict(r, out="ok", plen=r["dlen"], dec="ok", decok=1) for r in far][:10] + \
            [dict(r, rawoff=2) for r in inside if r.get("fam") == "big"][:5] + [dict(r, out="other:OverflowError") for r in recs if r["t"] == "far"][:5]
-    ck.add(evaluations=len(recs), classes=len(numeric_classes()), classes_per_family=per_family, distinct_nontrivial=len({(r["cls"], r["out"], r.get("raw", r.get("rawoff"))) for r in recs}),
-           accepted=len(ok), refused=sum(1 for r in recs if r["out"] == "conv"), selftest_corrupted_rejected=selftest(ck, muts), rule="distinct = (class, outcome, payload)")
+    ck.add(evaluations=len(recs), classes=len(numeric_classes()), classes_per_family=per_family, distinct_nontrivial=len({(r["cls"], r.get("out"), r.get("raw", r.get("rawoff"))) for r in recs}),
+           accepted=len(ok), refused=sum(1 for r in recs if r.get("out") == "conv"), selftest_corrupted_rejected=selftest(ck, muts), rule="distinct = (class, outcome, payload)")
     ck.sample({"record": recs[5], "example": ex[5]})
 
 
@@ -526,6 +530,14 @@ def run10(ck):
                     else:
                         r["same"] = 1 if v2 == v else 0
                         note = "" if r["same"] else f"decoded again as {v2!r}"[:160]
+                        if r["same"] and isinstance(form2, dict) and len(form2) > 1:
+                            # a JSON object has no order: its members listed the other way round are the same value
+                            try:
+                                p3 = cls.to_knx(dict(reversed(list(form2.items()))))
+                            except Exception as ex:  # noqa: BLE001
+                                p3 = type(ex).__name__
+                            if p3 != p2:
+                                r["same"], note = 0, f"with its members in reverse order: {p3} instead of {p2}"[:200]
             k = json.dumps(r, sort_keys=True)
             if k not in agg:
                 agg[k] = [r, 0, f"{cls.__name__}: {pdesc(p)} = {v!r:.120}; JSON form {json.dumps(jsonify(v), default=str)[:160]} {note}"]
